@@ -544,6 +544,16 @@ def suite_detect(ctx):
         if rnd.random() < 0.3:
             s.append('pdecodex %d ' % rnd.randrange(Ls.n) + ' '.join(hx(t) for t in toks))
 
+    # always: in every language a stray non-ASCII code point before / after the first, a middle and the last token
+    # (the accent-folding matcher of Spanish and French skips it, every other list must reject the token)
+    for li in range(Ls.n):
+        for stray in ('\ufeff', '\u65e5', '\u00b7', '\u00a1'):
+            for pos in (0, 7, 15):
+                for front in (True, False):
+                    toks = [rnd.choice(pools[li]) for _ in range(16)]
+                    toks[pos] = stray.encode() + toks[pos] if front else toks[pos] + stray.encode()
+                    s.append('pdecode ' + ' '.join(hx(t) for t in toks))
+
     def oracle(ops):
         bad = []
         idx = {li: RuleIndex(Ls.langs[li], Ls.words(li), code=True) for li in range(Ls.n)}
